@@ -649,6 +649,10 @@ func dumpA(env *xnsworld.Env, sc siteCase) (dump, target string) {
 	tcp := sc.site == "tlstcp" || sc.site == "authtlstcp"
 	if tcp {
 		for _, port := range env.HCfg.TCPServices().Items() {
+			if port.Port() != 7000 {
+				// namespace a's TCP service (`legit` cases: namespace b's own TCP ingress listens on 7001)
+				continue
+			}
 			var hosts []string
 			for h := range port.TLS {
 				hosts = append(hosts, h)
@@ -1263,6 +1267,8 @@ func TestC09(t *testing.T) {
 				emitDyn(f[2] == "1", f[3])
 			case f[1] == "site" && len(f) == 7:
 				emitSite(siteCase{f[2], f[3], f[4], f[5], f[6]})
+			case f[1] == "legit" && len(f) == 8:
+				emitLegit(legitCase{f[2], f[3], f[4], f[5], f[6], f[7]})
 			case f[1] == "carrier" && len(f) == 7:
 				emitCarrier(carrierCase{f[2], f[3], f[4], f[5], f[6]})
 			case f[1] == "oauth" && len(f) == 8:
@@ -1276,6 +1282,7 @@ func TestC09(t *testing.T) {
 	thorough := tier == "thorough"
 	corpus()
 	carrierCorpus()
+	legitCorpus()
 
 	// --- buildResourceName / getContentProtocol: exhaustive over a small alphabet of shapes
 	bodies := []string{"n", "a/n", "b/n", "/n", "b/", "a/", "/", "", "a/b/n", "b/n/", "//n", "a//n"}
@@ -1382,6 +1389,8 @@ func TestC09(t *testing.T) {
 			}
 		}
 	}
+	// --- the foreign secret is also used, legitimately, by its own namespace in the same / another sync
+	legitCases(thorough)
 	flushBatch()
 	batching = false
 	if getterEnv != nil {
